@@ -32,9 +32,22 @@ def size(n: NodeModel) -> int:
 def window_empty(time_buffer: int, h: SQLDataHolder) -> bool:
     return False
 
+def reps_of(reps: list[tuple[str, str]], hs: list[JobHash]) -> bool:
+    return (all(any(hs[q].job_name == reps[k][0] and hs[q].job_id == reps[k][1] for q in range(len(hs))) for k in range(len(reps)))
+            and all(any(any(hs[q2].job_name == reps[k][0] and hs[q2].job_id == reps[k][1] and hs[q2].job_name == hs[q].job_name
+                            and hs[q2].job_hash == hs[q].job_hash for q2 in range(len(hs))) for k in range(len(reps))) for q in range(len(hs)))
+            and all(not (hs[q1].job_name == reps[k1][0] and hs[q1].job_id == reps[k1][1] and hs[q2].job_name == reps[k2][0] and hs[q2].job_id == reps[k2][1]
+                         and hs[q1].job_name == hs[q2].job_name and hs[q1].job_hash == hs[q2].job_hash)
+                    for k1 in range(len(reps)) for k2 in range(k1 + 1, len(reps)) for q1 in range(len(hs)) for q2 in range(len(hs))))
+
+def distinct_jobs(hs: list[JobHash]) -> bool:
+    return all(hs[a].job_id != hs[b].job_id for a in range(len(hs)) for b in range(a + 1, len(hs)))
+
 def H(n: NodeModel, M: dict[str, list[NodeModel]]) -> str:
     return (xxh(n.event_type + "".join(sorted([H(c, M) for c in M[n.event_id]]))) if n.event_id in M else xxh(n.event_type))
 '''
+
+SELECTED = {"every_shape_represented": "all(any(HS[q2].job_name == HS[q].job_name and HS[q2].job_hash == HS[q].job_hash and HS[q].job_name in result and HS[q2].job_id in result[HS[q].job_name] for q2 in range(len(HS))) for q in range(len(HS)))".replace("HS", "sql_data_holder.g_hashes"), "one_per_shape": "all(not (q1 != q2 and HS[q1].job_name == HS[q2].job_name and HS[q1].job_hash == HS[q2].job_hash and HS[q1].job_name in result and HS[q1].job_id in result[HS[q1].job_name] and HS[q2].job_id in result[HS[q1].job_name]) for q1 in range(len(HS)) for q2 in range(len(HS)))".replace("HS", "sql_data_holder.g_hashes"), "only_hashed_traces": "forall(lambda nm, i: implies(nm in result and i in result[nm], any(HS[q].job_name == nm and HS[q].job_id == i for q in range(len(HS)))), 'str', 'str')".replace("HS", "sql_data_holder.g_hashes")}
 
 TREE = "forall(lambda x: implies(x.event_id in node_to_children, all(0 <= size(c) < size(x) for c in node_to_children[x.event_id])), 'NodeModel', triggers=[x.event_id])"
 
@@ -108,7 +121,22 @@ CONTRACTS = {
         # a slice of the root table (Python slice semantics: clamped at the end)
         "ensures": {"slice": "result == data_holder.g_roots[min(start_row, len(data_holder.g_roots)):min(start_row + batch_size, len(data_holder.g_roots))]"},
     },
-    "get_unique_graph_job_ids_per_job_name": {"trusted": True, "ensures": {}},
+    # one trace id per (name, hash) group: the GROUP BY is SQL (trusted ghost effect: the fetched rows are representatives of the groups),
+    # the regrouping into name -> set of ids is verified
+    "get_unique_graph_job_ids_per_job_name": {
+        "externals": ["sa", "session"],
+        "locals": {"job_hashes": "list[tuple[str, str]]", "job_name_to_job_ids": "dict[str, set[str]]"},
+        "ghost_effects": [{"after": "job_hashes = session.execute(stmt).fetchall()", "modifies": [],
+                           "ensures": {"representatives": "reps_of(job_hashes, sql_data_holder.g_hashes)"}}],
+        "requires": {"distinct_jobs": "distinct_jobs(sql_data_holder.g_hashes)"},
+        "ensures": SELECTED,
+        "loops": {0: {"index": "k", "seq": "reps", "invariant": {
+            "src": "reps == job_hashes and reps_of(reps, sql_data_holder.g_hashes)",
+            "names": "forall(lambda nm: (nm in job_name_to_job_ids) == any(reps[p][0] == nm for p in range(k)), 'str')",
+            "collected": "forall(lambda nm, i: implies(nm in job_name_to_job_ids, (i in job_name_to_job_ids[nm]) == any(reps[p][0] == nm and reps[p][1] == i "
+                         "for p in range(k))), 'str', 'str')",
+        }}},
+    },
     "find_unique_graphs": {
         "modifies": ["SQLDataHolder.g_hashes"],
         "externals": ["sa", "session"],
@@ -126,6 +154,9 @@ CONTRACTS = {
             "every_root_hashed_once": "len(sql_data_holder.g_hashes) == len(sql_data_holder.g_roots) and all(sql_data_holder.g_hashes[p].job_id == "
                                       "sql_data_holder.g_roots[p].job_id and sql_data_holder.g_hashes[p].job_name == sql_data_holder.g_roots[p].job_name "
                                       "for p in range(len(sql_data_holder.g_roots)))",
+            # "... the selected traces contain exactly one representative of every distinct [hash class] ... and two traces of the same shape
+            # are never both selected" - over the hash rows just written, per workflow name
+            **SELECTED,
         },
         "loops": {0: {"invariant": {
             "progress": "start_row >= 0",
